@@ -508,6 +508,21 @@ pub fn gen_picture_bytes(rng: &mut Rng, limit: usize) -> Vec<u8> {
 }
 
 pub fn gen_picture(rng: &mut Rng, uri: String, limit: usize) -> Picture {
+    let mut pic = gen_picture_raw(rng, uri, limit);
+    // a server that hands out short chunks needs more requests: keep it at about 80 per picture
+    if let Some(min_cap) = pic.chunk_caps.iter().copied().min() {
+        let max = 80 * min_cap.max(1);
+        if let Some(e) = pic.embedded.as_mut() {
+            e.data.truncate(max);
+        }
+        if let Cover::Bytes(b) = &mut pic.cover {
+            b.truncate(max);
+        }
+    }
+    pic
+}
+
+fn gen_picture_raw(rng: &mut Rng, uri: String, limit: usize) -> Picture {
     let embedded = if rng.chance(1, 2) {
         Some(Embedded {
             data: gen_picture_bytes(rng, limit),
@@ -1038,9 +1053,26 @@ pub fn shrink_plan(plan: &Plan) -> Vec<Plan> {
         }
     }
     if plan.binary_limit > 1 {
-        let mut p = plan.clone();
-        p.binary_limit = plan.binary_limit / 2;
-        push(p);
+        // a smaller limit means more chunk requests: never let shrinking turn a plan into one
+        // that is merely heavy
+        let biggest = plan
+            .pictures
+            .iter()
+            .map(|p| {
+                let e = p.embedded.as_ref().map(|e| e.data.len()).unwrap_or(0);
+                let c = match &p.cover {
+                    Cover::Bytes(b) => b.len(),
+                    _ => 0,
+                };
+                e.max(c)
+            })
+            .max()
+            .unwrap_or(0);
+        if biggest / (plan.binary_limit / 2).max(1) <= 100 {
+            let mut p = plan.clone();
+            p.binary_limit = plan.binary_limit / 2;
+            push(p);
+        }
     }
     // misc
     if plan.tokio_seed > 1 {
